@@ -27,17 +27,18 @@ type Profile struct {
 	MinSteps int
 	MaxSteps int
 	// sizes
-	NodeLo, NodeHi int64 // node capacity range per type
-	AskLo, AskHi   int64 // ask size range per type
-	GangProb       int   // percent of applications that are gang applications
-	ReqNodeProb    int   // percent of asks that require a node
-	PreemptProb    int   // percent of asks that may preempt others
-	OldAskProb     int   // percent of asks created one hour ago
-	BadQueueProb   int   // percent of applications submitted to a queue that does not exist
-	TagQuotaProb   int   // percent of applications carrying quota tags
-	Epilogue       bool  // drain everything at the end and demand exact zero
-	Warmup         bool  // start with two nodes and two applications
-	Reloads        bool  // Reload ops use mutated configurations
+	NodeLo, NodeHi int64    // node capacity range per type
+	AskLo, AskHi   int64    // ask size range per type
+	GangProb       int      // percent of applications that are gang applications
+	ReqNodeProb    int      // percent of asks that require a node
+	PreemptProb    int      // percent of asks that may preempt others
+	OldAskProb     int      // percent of asks created one hour ago
+	BadQueueProb   int      // percent of applications submitted to a queue that does not exist
+	TagQuotaProb   int      // percent of applications carrying quota tags
+	Epilogue       bool     // drain everything at the end and demand exact zero
+	Warmup         bool     // start with two nodes and two applications
+	Reloads        bool     // Reload ops use mutated configurations
+	UserPool       []string // users to draw applications' owners from (default: all)
 }
 
 // BaseWeights has every op enabled.
@@ -378,7 +379,11 @@ func (w *World) genAddApp(t *rapid.T, p *Profile) Op {
 			op.Queue = strings.ToUpper(op.Queue[:1]) + op.Queue[1:]
 		}
 	}
-	op.User = pick(t, "user", Users)
+	users := Users
+	if len(p.UserPool) > 0 {
+		users = p.UserPool
+	}
+	op.User = pick(t, "user", users)
 	op.Groups = UserGroups[op.User]
 	if pct(t, "tag-quota", p.TagQuotaProb) {
 		op.Tags = map[string]string{}
